@@ -34,6 +34,7 @@ def main():
     prop = a.id
     logdir = os.path.join(OUT_DIR, "logs", prop)
     if a.replay:
+        logdir = logdir + ".replay%d" % os.getpid()
         shutil.rmtree(logdir, ignore_errors=True)
         if a.replay.endswith(".rs"):
             rc = kani_run.replay_artefact(a.replay, logdir)
@@ -46,13 +47,15 @@ def main():
     t0 = time.time()
     hs = [h for h in kani_run.discover() if h.id == prop and (a.tier == "thorough" or h.tier == "quick")]
     if a.only:
-        hs = [h for h in hs if a.only in h.name]
+        hs = [h for h in hs if any(x and x in h.name for x in a.only.split(','))]
     if a.no_kani:
         hs = []
     if a.list:
         for h in hs:
             print(h.name, h.tier, h.timeout, h.mem, h.expect)
         return
+    if a.only or a.no_kani:
+        logdir = logdir + ".dev%d" % os.getpid()  # development runs never disturb a full run of the same property
     shutil.rmtree(logdir, ignore_errors=True)
     os.makedirs(logdir, exist_ok=True)
     known = open_findings(prop)
